@@ -63,7 +63,8 @@ pub fn run(args: &Args) {
     out.rule = "a history on a fresh deployment (plain world: incentive + factory + epoch mock; helper world: + real constant-product pair and frontend helper); \
                 non-trivial = positions were opened for at least two addresses and a ClosePosition and a Withdraw succeeded (plain), or at least two helper deposits \
                 succeeded (helper world); distinct = by hash of the op list".into();
-    let mut rng = Rng::new(args.seed);
+    // Rng::new seeds linearly (seed s+1 is seed s shifted by one draw); decorrelate the seeds of this property
+    let mut rng = Rng::new(hash64(&[args.seed as u128, 0xC13_5EED]));
     let mut none = |_: &mut Mon, _: &IncWorld, _: &Snap, _: &Op, _: bool, _: &Snap| {};
     if let Some(path) = &args.replay {
         let j: serde_json::Value = serde_json::from_str(&std::fs::read_to_string(path).expect("replay file")).expect("json");
